@@ -17,6 +17,7 @@
 //!   E <seq> <tid> <id>       expand input <id> on thread <tid>; prints an R line
 //!   P <tid> <n> <seed>       heap perturbation on thread <tid>: n seeded allocations, some kept
 //!   O <tid> <policy> <seed>  (hooked build) order policy + container seed for later expansions on <tid>
+//!   A                        (selftest) print the address of a stack variable and of a fresh heap block
 //! stdout:
 //!   R <seq> <tid> <id> <OK|ERR|PANIC|PARSE> <text> <spans>
 //!   B <seq> <file:line:op:len:order_sig:canon_sig>,...     (hooked build; one per expansion)
@@ -389,6 +390,12 @@ fn main() {
                 let policy: u8 = f.next().unwrap().parse().unwrap();
                 let seed: u64 = f.next().unwrap().parse().unwrap();
                 dispatch(tid, Cmd::Order { policy, seed }, &threads, &mut out);
+            },
+            Some("A") => {
+                // selftest only: where do a stack variable and a fresh heap block live?
+                let local = 0u8;
+                let b = Box::new(0u64);
+                writeln!(out, "A {:x} {:x}", &local as *const u8 as usize, &*b as *const u64 as usize).unwrap();
             },
             Some("") | None => {},
             Some(x) => {
